@@ -510,6 +510,9 @@ func (w *World) synthesise(fs *FuncSpec) error {
 				if f.Kind == "tlvs" || f.Kind == "options" || (f.Kind == "bytes" && memberIsByteSlice(fn, f.Member)) {
 					dec.Ensures = append(dec.Ensures, mustClause("ensures", "C12", "dec.owned."+f.Member, "fresh("+r+"."+f.Member+")"))
 				}
+				if f.Kind == "rep" {
+					dec.Ensures = append(dec.Ensures, mustClause("ensures", "C12", "dec.owned."+f.Member, repOwned(r, f.Member)))
+				}
 			}
 			fs.Behaviors = append(fs.Behaviors, dec)
 			if !last {
@@ -542,8 +545,25 @@ func (w *World) synthesise(fs *FuncSpec) error {
 					// whatever the input: what the decoder stores shares no memory with the input buffer or a pool
 					safe.Ensures = append(safe.Ensures, mustClause("ensures", "C12", "owned."+f.Member, "err == nil ==> fresh("+r+"."+f.Member+")"))
 				}
+				if f.Kind == "rep" {
+					safe.Ensures = append(safe.Ensures, mustClause("ensures", "C12", "owned."+f.Member, repOwned(r, f.Member)))
+				}
 			}
 			fs.Behaviors = append(fs.Behaviors, safe)
+			// decoding into an object that already holds an earlier result: the list that result carries is not written
+			var reuse *Behavior
+			for _, f := range lt.Fields {
+				if f.Kind == "rep" {
+					if reuse == nil {
+						reuse = &Behavior{Name: "reuse", Props: []string{"C12"}}
+						reuse.Requires = append(reuse.Requires, mustClause("requires", "", "", r+" != nil"))
+					}
+					reuse.Ensures = append(reuse.Ensures, mustClause("ensures", "C12", "kept."+f.Member, "kept("+r+"."+f.Member+")"))
+				}
+			}
+			if reuse != nil {
+				fs.Behaviors = append(fs.Behaviors, reuse)
+			}
 		}
 		return nil
 	}
@@ -769,6 +789,12 @@ func (e *CEnv) layoutCall(name string, args []*CExpr) (Value, bool) {
 }
 
 // memberIsByteSlice: is member m of the receiver's struct a []byte (strings are immutable and need no ownership clause).
+// repOwned: the list a decoder stores for a repeated member is newly allocated (or has no backing memory at all)
+// whenever the object it decodes into brought no capacity of its own.
+func repOwned(r, m string) string {
+	return fmt.Sprintf("old(cap(%s.%s)) == 0 ==> fresh(%s.%s) || cap(%s.%s) == 0", r, m, r, m, r, m)
+}
+
 func memberIsByteSlice(fn *ssa.Function, m string) bool {
 	pt, ok := fn.Params[0].Type().(*types.Pointer)
 	if !ok {
